@@ -39,6 +39,8 @@ def strategy(tier: str) -> Any:
         'backend': st.sampled_from(['dict', 'dict', 'maildir']),
         'init': st.lists(st.integers(0, 31), max_size=6),
         'nsess': st.sampled_from([1, 2, 2, 2, 3, 3]),
+        'examine': st.lists(st.sampled_from([False, False, True]), min_size=4,
+                            max_size=4),
         'other': st.sampled_from([[False, False, False]] * 4 + [
             [False, False, True], [False, True, False]]),
         'steps': steps_strategy(max_steps),
